@@ -106,7 +106,8 @@ func c02Engine(c *lab.Ctx) {
 						}
 					case 5, 6:
 						key = "retry"
-						plan = []string{"s503|ok", "d250:ok|ok", "d250:s503|d50:ok", "s503|s503|ok", "stall|ok"}[crng.Intn(5)]
+						// incl. exchanges that end in a reply of MOSN's own after an upstream had already answered with a body
+						plan = []string{"s503|ok", "d250:ok|ok", "d250:s503|d50:ok", "s503|s503|ok", "stall|ok", "s503|stall", "s503|s503|stall", "s503|close|close", "b3000:s503|stall"}[crng.Intn(9)]
 					default:
 						plan = fmt.Sprintf("d%d:b%d:ok", crng.Intn(300), crng.PickInt(0, 100, 5000))
 					}
@@ -145,6 +146,13 @@ func c02Engine(c *lab.Ctx) {
 					if (ev.HdrToken == "") != (ev.BodyToken == "") && ev.BodyLen > 0 && ev.HdrToken != "" {
 						c.Violation("header-and-body-from-one-exchange", "C02/mixed-exchange/"+proto,
 							fmt.Sprintf("%s: header token %q, body token %q", proto, ev.HdrToken, ev.BodyToken), wit)
+					}
+					// a reply that carries an upstream's body must carry that same attempt's header fields (a reply generated by
+					// MOSN echoes the request's fields, so its token alone proves nothing)
+					if ev.BodyToken != "" && (ev.Attempt != ev.BodyAttempt || ev.Upstream != ev.BodyUpstream) {
+						wit["header_attempt"], wit["body_attempt"], wit["header_upstream"], wit["body_upstream"] = ev.Attempt, ev.BodyAttempt, ev.Upstream, ev.BodyUpstream
+						c.Violation("header-and-body-from-one-exchange", "C02/mixed-exchange/attempt/"+proto,
+							fmt.Sprintf("%s: request %s (plan %s) got status %d with header fields of attempt %d from %q but the body of attempt %d from %q", proto, tok, plan, ev.Status, ev.Attempt, ev.Upstream, ev.BodyAttempt, ev.BodyUpstream), wit)
 					}
 					if ev.Responses > 1 {
 						c.Violation("at-most-one-response", "C02/duplicate-response/"+proto,
